@@ -37,5 +37,6 @@ Spec == Init /\ [][Next]_mvars
 AllOnce == (Mode = "rx" /\ pool = {}) => /\ store = Empty
                         /\ (\A m \in {10, 20, 30} : m \in DOMAIN done /\ done[m] = 1)
                         /\ (\A k \in DOMAIN done : done[k] = 1 /\ k \in {10, 20, 30, 50})
+OneStep == TLCGet("level") <= 1
 NeverTwice == \A m \in DOMAIN done : done[m] <= 1
 ====
